@@ -25,8 +25,18 @@ CB_OF_TYPE = {rp.OPEN: "open_received", rp.KEEPALIVE: "keepalive_received",
               rp.CISCO_ROUTE_REFRESH: "route_refresh_received"}
 
 
+def history_ops(cfg):
+    """An earlier connection of the same process (cfg 'history'): a session in which a message was only partly
+    received when the peer reset the connection. What follows starts on a new connection and a clean stream."""
+    if cfg.get("history") == "prev_partial":
+        part = (rp.encode_keepalive() + rp.encode_keepalive())[:19 + int(cfg.get("history_cut", 10))]
+        return [["fire", 0], ["conn_ok", 0], ["send", 0, cfg["peer_open"], []], ["send", 0, part.hex(), []],
+                ["pclose", 0, False]]
+    return []
+
+
 def reach_ops(cfg, state):
-    ops = [["fire", 0], ["conn_ok", 0]]
+    ops = history_ops(cfg) + [["fire", 0], ["conn_ok", 0]]
     if state in ("OpenConfirm", "Established"):
         ops.append(["send", 0, cfg["peer_open"], []])
     if state == "Established":
@@ -71,8 +81,22 @@ class Member(object):
             w = World(cfg, fs=simfs.SimFS())
         else:
             w = World(cfg)
-        for op in reach_ops(cfg, state):
-            w.apply(op)
+        late = cfg.get("history") == "late_close"
+        if late:
+            # an earlier session that the agent closed itself (the peer sent a NOTIFICATION); the completion of that
+            # close is still pending while the next session is set up and the stream arrives
+            for op in [["fire", 0], ["conn_ok", 0], ["send", 0, cfg["peer_open"], []], ["send", 0, rp.encode_keepalive().hex(), []],
+                       ["send", 0, rp.encode_notification(6, 4).hex(), []], ["fire", 0], ["conn_ok", 1]]:
+                w.apply(op)
+            if state in ("OpenConfirm", "Established"):
+                w.apply(["send", 1, cfg["peer_open"], []])
+            if state == "Established":
+                w.apply(["send", 1, rp.encode_keepalive().hex(), []])
+        else:
+            for op in reach_ops(cfg, state):
+                w.apply(op)
+        for path in cfg.get("rest_before") or []:
+            w.apply(["rest", "GET", base.URL + path, "ok"])     # a monitoring system has read the state / the counters
         self.reached = w.state()
         if cfg.get("hqueue"):
             w.apply(["hqueue"] + list(cfg["hqueue"]))       # the application has a message queued for the peer
@@ -80,10 +104,17 @@ class Member(object):
             w.apply(["hfail", cfg["hfail_at"]])              # its n-th callback from now raises ENOSPC
         self.pos = len(w.log)
         self.w = w
-        c = w.conn(0)
+        live = w.live_conns()
+        c = live[-1] if (late and live) else w.conn(0)
         self.cid = c.cid if c is not None else None
         self.w0 = len(c.written) if c is not None else 0
-        w.apply(["pw", 0, stream.hex()])
+
+        def k():
+            for i, x in enumerate(w.live_conns()):
+                if x.cid == self.cid:
+                    return i
+            return 0
+        w.apply(["pw", k(), stream.hex()])
         last = 0
         first = True
         for cut in sorted(set(cuts)) + [len(stream)]:
@@ -91,8 +122,13 @@ class Member(object):
                 continue
             if not first and gap:
                 w.apply(["advance", gap])
+            w.apply(["deliver", k(), cut - last])
+            if first and late:
+                for i, x in enumerate(w.live_conns()):
+                    if x.cid != self.cid and x.closing():
+                        w.apply(["cdone", i])
+                        break
             first = False
-            w.apply(["deliver", 0, cut - last])
             last = cut
 
     def summary(self):
@@ -425,9 +461,9 @@ class FramingCtx(object):
         for e in w.log[mem.pos:]:
             if e[2] == "write" and e[3] == mem.cid:
                 for f in rp.deframe(bytes.fromhex(e[4]))[0]:
-                    toks.append(("tx", mem.cid, base.BaseCtx.tx_token(f)))
+                    toks.append(("tx", 0, base.BaseCtx.tx_token(f)))     # (the model calls the observed connection #0)
             elif e[2] == "lose":
-                toks.append(("lose", e[3]))
+                toks.append(("lose", 0 if e[3] == mem.cid else e[3] + 1000))
             elif e[2] == "h" and e[3] == "on_established":
                 toks.append(("estab",))
         toks = base.normalise_close_order(toks)
@@ -544,11 +580,22 @@ class FramingProfile(BaseProfile):
         cfg["peer_open"] = base.gen_open(rng, cfg, "valid", hold=rng.pick([0, 3, 30, 90, 180])).hex()
         cfg["mode"] = "random"
         cfg["rib"] = rng.chance(0.3)
-        if rng.chance(0.1):
+        if rng.chance(0.15):
             # the stock DefaultHandler is the application
             cfg["handler"] = "default"
             cfg["write_disk"] = rng.chance(0.7)
             cfg["rotate_bytes"] = 10 ** 9
+            if rng.chance(0.5):
+                # IPv6 peering, the peer's address written with capital hex digits; the message file rotates early
+                cfg["local_addr"], cfg["remote_addr"] = "2001:db8::1", "2001:DB8::2"
+                cfg["write_disk"] = True
+                cfg["rotate_bytes"] = rng.pick([0, 200, 1000])
+        if rng.chance(0.15):
+            cfg["history"] = rng.pick(["prev_partial", "late_close"])
+            cfg["history_cut"] = rng.pick([1, 10, 18])
+            cfg["idle_hold_time"] = rng.pick([1, 30])
+        if rng.chance(0.15):
+            cfg["rest_before"] = [rng.pick(["statistic", "state", "statistic"]) for _ in range(rng.randrange(1, 3))]
         cfg["hfail_at"] = rng.pick([1, 2, 3, 4]) if rng.chance(0.12) else None
         cfg["hqueue"] = [rng.pick(["update", "update", "notification"]), rng.randrange(1, 9)] if rng.chance(0.12) else None
         n_random = self.runs_random[tier]
